@@ -45,6 +45,14 @@ def purePow : List String → Option String
         | .notEnoughPlasma => "not-enough-plasma"
         | .limitReached => "limit-reached"
         | .notEnoughTotal => "not-enough-total")
+  | ["plasma-base", kind, mc, dlen] => do
+      -- base cost of a user's block by type (recv | send), called method's cost (- = no embedded method is called) and data length
+      let isRecv ← (match kind with | "recv" => some true | "send" => some false | _ => none)
+      let mc ← (if mc = "-" then some none else mc.toNat?.map some)
+      let dlen ← dlen.toNat?
+      pure (match Pow.basePlasmaChecked isRecv mc dlen with
+        | some b => s!"ok {b}"
+        | none => "too-big")
   | ["plasma-diff", p] => do
       let p ← p.toNat?
       match Pow.difficultyForPlasma p with
